@@ -20,7 +20,8 @@ def c08_total_work(ctx, v, kmax=None):
     kmax = kmax or (5 if ctx.tier == "quick" else 8)
     body = ctx.body(r"transaction::<impl at [^>]*>::generate_total_work$")
     fi = lambda f: ctx.field_index("Transaction", f)
-    for K in range(0, kmax + 1):
+    import os
+    for K in range(int(os.environ.get("C08_KMIN", "0")), kmax + 1):
         ex = ctx.executor(loop_bound=K + 2)
         hops = [_hop(ex, i) for i in range(K)]
         fees = ex.fresh_value("u64", "total_fees")
@@ -33,7 +34,14 @@ def c08_total_work(ctx, v, kmax=None):
         # reference: ceil-halving per extra hop
         ref = fees.bv
         for _ in range(1, K):
-            ref = ref - z3.UDiv(ref, z3.BitVecVal(2, 64))
+            nxt = ref - z3.LShR(ref, z3.BitVecVal(1, 64))
+            # the reference never grows: one halving step at a time (a chain of <= gives reference <= fee)
+            x = z3.BitVec("halving_step_input", 64)
+            r0, _m = ex.model_for([], z3.UGT(x - z3.LShR(x, z3.BitVecVal(1, 64)), x))
+            v.queries += 1
+            if r0 != z3.unsat:
+                return v.undecided("reference model: a halving step is not shown non-increasing (%s)" % r0)
+            ref = nxt
         contiguous = z3.And(*[_bytes_eq(hops[i].fields[0], hops[i - 1].fields[1], 33) for i in range(1, K)]) if K > 1 else z3.BoolVal(True)
         ends_at_creator = _bytes_eq(hops[K - 1].fields[1], creator, 33) if K > 0 else z3.BoolVal(False)
         good = z3.And(contiguous, ends_at_creator)
@@ -43,7 +51,12 @@ def c08_total_work(ctx, v, kmax=None):
                 return
             if o.kind == "panic":
                 v.queries += 1
-                v.fail("K=%d: panic reachable: %s" % (K, o.info), model_values(ex.model_for(o.pc)[1], dict(total_fees=fees)))
+                r, m = ex.model_for(o.pc)
+                if r == z3.sat:
+                    v.fail("K=%d: panic reachable: %s" % (K, o.info), model_values(m, dict(total_fees=fees)))
+                elif r != z3.unsat:
+                    v.undecided("K=%d: solver gave no verdict on the feasibility of a panic path (%s)" % (K, o.info))
+                    return
                 continue
             if o.kind != "return":
                 continue
@@ -53,7 +66,13 @@ def c08_total_work(ctx, v, kmax=None):
                 v.fail("K=%d: total_work_for_me not written on a returning path" % K)
                 continue
             expected = z3.If(good, ref, z3.BitVecVal(0, 64))
-            for what, bad in (("work != reference", w.bv != expected), ("work > fee", z3.UGT(w.bv, fees.bv))):
+            # case split on `good` (two simpler queries; syntactically identical sides simplify to false without bit-blasting)
+            for what, bad in (("work != reference", z3.And(good, z3.simplify(w.bv != ref))), ("work != 0 on a broken path", z3.And(z3.Not(good), w.bv != 0)),
+                              ("work > fee", z3.And(z3.simplify(w.bv != ref), z3.UGT(w.bv, fees.bv)))):
+                if z3.is_false(z3.simplify(bad)):
+                    v.queries += 1
+                    v.unsat += 1
+                    continue
                 r, m = ex.model_for(o.pc, bad)
                 v.queries += 1
                 if r == z3.sat:
@@ -66,7 +85,7 @@ def c08_total_work(ctx, v, kmax=None):
                 elif r == z3.unsat:
                     v.unsat += 1
                 else:
-                    v.undecided("solver unknown")
+                    v.undecided("solver unknown: K=%d %s" % (K, what))
             # reachability witness: a good path with non-zero work exists
             if K >= 1:
                 r, m = ex.model_for(o.pc, z3.And(good, w.bv != 0))
@@ -195,5 +214,76 @@ def c08_block_gt_gate(ctx, v):
             v.fail("Block::validate returns true although GoldenTicket::validate returned false")
         else:
             n += 1
+    v.covers_total += 1
+    v.covers_sat += 1 if n else 0
+
+
+def c08_winning_router_eligible(ctx, v):
+    """Transaction::get_winning_routing_node (who receives the router share of a block's fees) for
+    K = 0..=3 hops (thorough 5) and 0..=2 inputs, lottery number symbolic: with a routing path the
+    payee is the `to` key of one of this transaction's hops (or the zero key when the transaction
+    paid no fee); without one it is the sender from[0] (or the zero key when there is no input);
+    the function does not panic for fees within the token supply.  The 256-bit remainder is an
+    explicit symbolic input w constrained only by its contract w < aggregate routing work."""
+    body = ctx.body(r"transaction::<impl at [^>]*>::get_winning_routing_node$")
+    fi = lambda f: ctx.field_index("Transaction", f)
+    kmax = 3 if ctx.tier == "quick" else 5
+    n = 0
+    for K in range(0, kmax + 1):
+        for nin in (0, 1, 2):
+            if K > 0 and nin != 1:
+                continue
+            ex = ctx.executor(loop_bound=K + 3, inline="auto", no_inline=[r"U256", r"div_mod", r"low_u64"])
+            ex.pure = [r".*"]
+            w = ex.fresh_value("u64", "lottery_remainder")
+
+            def hook(ex_, st, callee, args, dty, w=w):
+                if re.search(r"low_u64$", callee):
+                    return ex_.copy_value(w)
+                return None
+            ex.on_call = hook
+            hops = [_hop(ex, i) for i in range(K)]
+            ins = [L.sym_slip(ctx, ex, "in%d" % i) for i in range(nin)]
+            outs_ = [L.sym_slip(ctx, ex, "out%d" % i) for i in range(2)]
+            fees = ex.fresh_value("u64", "total_fees")
+            tx = ctx.mk_struct(ex, "Transaction", "tx", **{"from": S.Seq(ins, "Slip"), "to": S.Seq(outs_, "Slip"), "path": S.Seq(hops, "Hop"), "total_fees": fees})
+            agg = z3.BitVecVal(0, 64)
+            for i in range(K):
+                agg = agg + z3.LShR(fees.bv, z3.BitVecVal(i, 64))
+            st = S.State()
+            st.pc.extend([z3.ULE(fees.bv, 7 * 10**17)] + ([z3.Implies(agg != 0, z3.ULT(w.bv, agg))] if K else []))
+            outs = ex.run(body, [S.Ref(S.Cell(tx)), ex.fresh_value("[u8; 32]", "random_hash")], st)
+            v.paths += len(outs)
+            zero = lambda b: z3.And(*[z3.Select(b.arr, z3.BitVecVal(i, 64)) == 0 for i in range(33)])
+            for o in outs:
+                if o.kind in ("unsupported", "unwound", "path-limit"):
+                    return v.undecided("K=%d: %s %s" % (K, o.kind, o.info))
+                if o.kind == "panic":
+                    r, m = ex.model_for(o.pc)
+                    v.queries += 1
+                    if r == z3.sat:
+                        v.fail("K=%d hops, %d inputs: get_winning_routing_node panics: %s" % (K, nin, o.info), dict(total_fees=m.eval(fees.bv, model_completion=True).as_long(), remainder=m.eval(w.bv, model_completion=True).as_long()))
+                    elif r != z3.unsat:
+                        return v.undecided("K=%d: no verdict on a panic path" % K)
+                    continue
+                if o.kind != "return":
+                    continue
+                res = o.value
+                if not isinstance(res, S.Bytes):
+                    return v.undecided("K=%d: unexpected result value %r" % (K, res))
+                if K == 0:
+                    eligible = _bytes_eq(res, L.slip_field(ctx, ins[0], "public_key"), 33) if nin else zero(res)
+                    what = "the sender (from[0])" if nin else "the zero key"
+                else:
+                    eligible = z3.Or(zero(res), *[_bytes_eq(res, h.fields[1], 33) for h in hops])
+                    what = "a router on this transaction's path"
+                r, m = ex.model_for(o.pc, z3.Not(eligible))
+                v.queries += 1
+                if r == z3.sat:
+                    v.fail("K=%d hops, %d inputs: the routing payout goes to a key that is not %s" % (K, nin, what))
+                elif r == z3.unsat:
+                    n += 1
+                else:
+                    return v.undecided("K=%d: solver unknown" % K)
     v.covers_total += 1
     v.covers_sat += 1 if n else 0
